@@ -22,6 +22,8 @@ def run(ck, tier):
     _infl.run(ck, F, 'C02')
     from . import mustpass as _mp
     _mp.run(ck, F, 'C02')
+    from . import accum as _acc
+    _acc.run(ck, F, 'C02')
     from . import c12x
     c12x.run(ck, F, rule="C02.ree-coordinates")
     from . import c02x
